@@ -208,6 +208,11 @@ def build_doc(rng, ch, pay):
         w = len(inner) + 2
         return gen.text_of(['+' + '-' * w + '+', '|' + inner + '  |', '+' + '-' * w + '+'])
     if ch == 'legname':
+        if rng.random() < 0.4:
+            # the payload inside what could pass for a css selector: pseudo classes, attribute and class selectors, combinators
+            np = ''.join(c for c in pay if c not in '(){}\r\n')
+            tpl = rng.choice(['a:not(%s)', 'a:nth-child(%s)', 'a:hover(%s)', 'a.%s', 'a[x=%s]', 'a[%s]', 'a>%s', 'a %s', 'a-%s', 'a\\%s', 'a:%s', 'a::%s', 'a,%s', '%s:hover', '*%s'])
+            return gen.text_of(host) + '# Legend:\nb = {fill:red}\n' + (tpl % np) + ' = {stroke:red;}\nc = {fill:blue}\n'
         return gen.text_of(host) + '# Legend:\n' + pay + ' = {fill:red}\na' + pay + ' = {fill:blue}\n'
     if ch == 'legdecl':
         if rng.random() < 0.4:
